@@ -3,6 +3,7 @@ import SpVerif.J
 import SpVerif.Ops.SpacePacket
 import SpVerif.Ops.PusTc
 import SpVerif.Ops.PusTm
+import SpVerif.Ops.Srv1
 /-!
 # Line-protocol driver: one JSON object per input line (`{"op": …, …}`), one JSON result per output line.
 `{"ok": …}` / `{"err": "<category>"}` are model results; `{"bad": "<msg>"}` is a protocol error.
@@ -15,6 +16,7 @@ def allOps : List (String × Handler) := []
   ++ Ops.SpacePacket.ops
   ++ Ops.PusTc.ops
   ++ Ops.PusTm.ops
+  ++ Ops.Srv1.ops
 
 def table : Std.HashMap String Handler := Std.HashMap.ofList allOps
 
